@@ -24,7 +24,7 @@ from mc.props._solve_common import DT, EPS, shp, bcast_shape
 ID = "C01"
 LEVEL = "exploration"
 DESIGN_REF = "DESIGN.md §5 C01"
-RULE = ("case = one point of the union of eleven complete sub-lattices (op / batch / opt / rhs / slice / reject / scale / mix / budget / sing / "
+RULE = ("case = one point of the union of twelve complete sub-lattices (op / batch / opt / rhs / slice / reject / scale / mix / colscale / budget / sing / "
         "f32, see module docstring) over operator kind (17) x method (7) x {no E, E, E+M, M only} x E dtype x "
         "spectrum class (SPD, indefinite Hermitian, non-normal non-Hermitian) x n x ncols x batch shapes of "
         "(A, B, E, M) x dtype x (tolerance, posdef, max_niter, resid_calc_every | Broyden maxiter, line_search, "
@@ -35,7 +35,7 @@ RULE = ("case = one point of the union of eleven complete sub-lattices (op / bat
         "except gmres; zero right-hand side => exact zeros; slices agree with the batched result.  Agreement "
         "with torch.linalg.solve and between methods is implied by the residual bound (error <= bound / "
         "sigma_min) and is evaluated as such.  distinct = distinct observation hashes; trivial = rejected points")
-RULE_ADDED = 'Planes added later: mix (two systems of very different conditioning and right-hand-side norm in one call, as batch elements or as shifted columns); rhs plane with E / M batch dimensions that A and B do not have; call-order plane in fresh interpreters. Round 4: budget (cg with default / exact iteration budgets on tiny HPD systems), sing (exactly singular large batch element next to a well-conditioned small one), right-hand side of norm 1e-9 in the scale plane. Rounds 5-6: batch plane with n = ncols coinciding with batch lengths (2, 3); clustered (nearly coinciding, different) shifts.'
+RULE_ADDED = 'Planes added later: mix (two systems of very different conditioning and right-hand-side norm in one call, as batch elements or as shifted columns); rhs plane with E / M batch dimensions that A and B do not have; call-order plane in fresh interpreters. Round 4: budget (cg with default / exact iteration budgets on tiny HPD systems), sing (exactly singular large batch element next to a well-conditioned small one), right-hand side of norm 1e-9 in the scale plane. Rounds 5-6: batch plane with n = ncols coinciding with batch lengths (2, 3); clustered (nearly coinciding, different) shifts. Round 7: colscale (columns / batch elements of the right-hand side differing in norm by 1e2 / 1e3 in one call, standard tolerances, 6 / 24 numeric instances per point incl. matrices with eigenvalues spread over a disk; the harness counts the adjoint products, so the stopping test of the system that was iterated on is the one demanded).'
 ASSUMPTIONS = [
     "numeric content: A = L A0 L^H, M = L L^H with A0 = Q (diag(lam) [+ 0.3 T]) Q^H, lam = +-linspace(1, kappa), "
     "L Hermitian with spectrum in [1, 2]; shifts e_c from a fixed per-spectrum alphabet away from the spectrum; "
@@ -384,6 +384,35 @@ def _plane_mix(tier):
     return out
 
 
+def _plane_colscale(tier):
+    """right-hand sides whose columns (or batch elements) differ in norm by a factor 1e2 / 1e3 in ONE call, standard
+    tolerances (rtol 1e-6, atol 1e-8), several numeric instances: every column has to meet its own stopping test in
+    the returned tensor - the iterate that is returned must be the one that passed the test for every column"""
+    out = []
+    vseeds = range(6) if tier == "quick" else range(24)
+    for dtype in (["f64"] if tier == "quick" else ["f64", "c128"]):
+        for spec in SPECS:
+            for n in (24, 40):
+                for kappa in (10.0, 30.0):
+                    for ratio in (1e-3, 1e-2):
+                        for pos in ("col0", "col1", "batch0", "batch1"):
+                            for vs in vseeds:
+                                for method in ("cg", "bicgstab", "gmres"):
+                                    pat = ("2", "2", "", "") if pos.startswith("batch") else ("", "", "", "")
+                                    c = mk(plane="colscale", method=method, opkind="mvrmv", dtype=dtype,
+                                           spec=spec, n=n, ncols=2, kappa=kappa, tol="std", vseed=vs,
+                                           **_pat("none", pat))
+                                    c["colscale"] = ratio
+                                    c["pos"] = pos
+                                    out.append(c)
+                                    if spec == "nonherm" and kappa == 10.0 and method != "cg":
+                                        # eigenvalues spread over a disk around 1 (A = I + 0.75 G / sqrt(n), G a
+                                        # fixed Gaussian matrix): the residual norms of bicgstab are erratic
+                                        d = dict(c, amat="disk")
+                                        out.append(d)
+    return out
+
+
 def _plane_precond(tier):
     """documented preconditioner options of the Krylov methods (Jacobi preconditioner diag(A)^-1 as a
     LinearOperator): cg(precond), bicgstab(precond_l / precond_r / both).  The solution does not depend on the
@@ -449,6 +478,7 @@ def cases(tier, seed):
     out = []
     out += _plane_scale(tier)
     out += _plane_mix(tier)
+    out += _plane_colscale(tier)
     out += _plane_budget(tier)
     out += _plane_sing(tier)
     out += _plane_precond(tier)
@@ -460,7 +490,7 @@ def cases(tier, seed):
     out += _plane_slice(tier)
     out += _plane_f32(tier)
     # canonical order: simplest first (stable sort on a few size keys)
-    order = {"reject": 0, "op": 1, "batch": 2, "rhs": 3, "slice": 4, "f32": 5, "opt": 6, "scale": 7, "mix": 8, "budget": 9, "sing": 10, "precond": 11}
+    order = {"reject": 0, "op": 1, "batch": 2, "rhs": 3, "slice": 4, "f32": 5, "opt": 6, "scale": 7, "mix": 8, "colscale": 8.5, "budget": 9, "sing": 10, "precond": 11}
     out.sort(key=lambda c: (order[c["plane"]], c["vseed"] != 0, c["n"] * c["ncols"]))
     return out
 
@@ -537,6 +567,18 @@ def build_case(cfg):
             Em[..., k] = -100.0
             p["E"] = Em
             Bm[..., :, k] = Bm[..., :, k] * 1e4
+        p["B"] = Bm
+    if cfg.get("amat") == "disk":
+        n = cfg["n"]
+        G = randn(tuple(p["A"].shape), dt, gen(7000 + cfg["vseed"]))
+        p["A"] = torch.eye(n, dtype=dt) + 0.75 * G / n ** 0.5
+    if cfg.get("colscale"):
+        Bm = p["B"].clone()
+        k = int(cfg["pos"][-1])
+        if cfg["pos"].startswith("batch"):
+            Bm[k] = Bm[k] * cfg["colscale"]
+        else:
+            Bm[..., :, k] = Bm[..., :, k] * cfg["colscale"]
         p["B"] = Bm
     if cfg.get("sing") is not None:
         k = int(cfg["sing"])
@@ -645,6 +687,8 @@ def judge(cfg, p, A, M, o, batch, tag=""):
         # A - e M non-Hermitian whatever the flags say
         eff_herm = herm_flag and not (E is not None and E.is_complex())
         normal_possible = (cfg["posdef"] is not True) or (method in ("cg", None) and not eff_herm)
+        if cfg.get("_direct_observed"):
+            normal_possible = False
         if normal_possible:
             bound = torch.maximum(direct, normal) + 100 * eps * n * kap * kap * bn
         else:
@@ -737,8 +781,24 @@ def run_case(cfg):
         return {"viol": [V("operator-construction-" + exc_class(ob.exc), {"exception": ob.exc_sig})],
                 "obs": {"build": exc_class(ob.exc)}, "status": "violation"}
     A, M = ob.value
-    o = run_solve(cfg, A, p["B"], p["E"], M)
+    if cfg["plane"] == "colscale":
+        # the harness watches which system was iterated on: if the adjoint product was never asked for, the
+        # Krylov method worked on A X = B itself and ITS stopping test (not that of the normal equations) applies
+        nrmv = [0]
+        inner_rmv = A._rmv
+
+        def counted_rmv(x):
+            nrmv[0] += 1
+            return inner_rmv(x)
+        A._rmv = counted_rmv
+        o = run_solve(cfg, A, p["B"], p["E"], M)
+        cfg = dict(cfg, _direct_observed=(nrmv[0] == 0))
+    else:
+        o = run_solve(cfg, A, p["B"], p["E"], M)
     viol, obs, smin, bound = judge(cfg, p, A, M, o, batch)
+    if cfg["plane"] == "colscale":
+        obs["direct_system"] = cfg["_direct_observed"]
+        cfg = {k: v for k, v in cfg.items() if k != "_direct_observed"}
     nexec = 1
     status = "ok"
     if o.exc is None and o.warned:
